@@ -17,6 +17,7 @@
    attributes and children as far as document order is concerned. *)
 From Coq Require Import List Arith Bool.
 Import ListNotations.
+Require Import XV.GenNodelist.
 
 Inductive tree := Node (nattr : nat) (kids : list tree).
 
@@ -202,14 +203,20 @@ Definition executionContextPredicate (W : world) (n1 n2 : lnode) : bool :=
   else if is_doc n2 then true
   else isNodeAfter W n1 n2.
 
-(* findInsertionPointLinearSearch: (fInsert, insertionPoint) *)
-Fixpoint linearSearch (pred : lnode -> lnode -> bool) (l : list lnode) (n : lnode) (pos : nat) : bool * nat :=
+(* findInsertionPointLinearSearch: (fInsert, insertionPoint).
+   [grp] = the variant of the loop that keeps the nodes of a document together (proposed repair of F7:
+   a flag fSeenOwnDocument; a node of another document ends the scan once nodes of the own document were
+   passed).  Which variant the source has is regenerated into GenNodelist.keeps_documents_together. *)
+Fixpoint linearSearch (grp : bool) (pred : lnode -> lnode -> bool) (l : list lnode) (n : lnode) (pos : nat) (seen : bool)
+  : bool * nat :=
   match l with
   | [] => (true, pos)
   | c :: r =>
     if lnode_eqb c n then (false, pos)
+    else if grp && documentPredicate n c then
+      (if seen then (true, pos) else linearSearch grp pred r n (S pos) seen)
     else if negb (pred n c) then (true, pos)
-    else linearSearch pred r n (S pos)
+    else linearSearch grp pred r n (S pos) (grp || seen)
   end.
 
 (* the loop of findInsertionPointBinarySearch; positions are offsets from begin; None = out of fuel.
@@ -249,7 +256,7 @@ Definition insert_at {A} (k : nat) (x : A) (l : list A) : list A := firstn k l +
 Definition dummy : lnode := (0, []).
 
 (* MutableNodeRefList::addNodeInDocOrder (node != 0).  None = the model ran out of fuel (excluded by theorem) *)
-Definition addNodeInDocOrder (W : world) (l : list lnode) (n : lnode) : option (list lnode) :=
+Definition addNodeInDocOrder_v (grp : bool) (W : world) (l : list lnode) (n : lnode) : option (list lnode) :=
   match l with
   | [] => Some [n]
   | theFirst :: _ =>
@@ -261,16 +268,20 @@ Definition addNodeInDocOrder (W : world) (l : list lnode) (n : lnode) : option (
         if isIndexed W n && (fst n =? theFirstOwner) then
           if (theFirstOwner =? fst theLast) then
             binarySearch (fun k => getIndex W (nth k l dummy)) (length l) (getIndex W n)
-          else Some (linearSearch (indexPredicate W) l n 0)
-        else Some (linearSearch (executionContextPredicate W) l n 0) in
+          else Some (linearSearch grp (indexPredicate W) l n 0 false)
+        else Some (linearSearch grp (executionContextPredicate W) l n 0 false) in
       match r with
       | None => None
       | Some (fInsert, ip) => Some (if fInsert then insert_at ip n l else l)
       end
   end.
 
-Definition add_step (W : world) (acc : option (list lnode)) (n : lnode) : option (list lnode) :=
-  match acc with None => None | Some l => addNodeInDocOrder W l n end.
+Definition add_step_v (grp : bool) (W : world) (acc : option (list lnode)) (n : lnode) : option (list lnode) :=
+  match acc with None => None | Some l => addNodeInDocOrder_v grp W l n end.
+
+(* the code as it is: the variant found in the source *)
+Definition addNodeInDocOrder := addNodeInDocOrder_v keeps_documents_together.
+Definition add_step := add_step_v keeps_documents_together.
 
 Inductive order := Unknown | DocOrder | RevOrder.
 
